@@ -162,7 +162,7 @@ def make_cfg(tmp, cfg):
 
 def include_flags(tmp, u):
     incs = []
-    if u['loops']:
+    if u['loops'] or u.get('copy_src') or u.get('patch_src'):
         incs.append(os.path.join(tmp, 'src'))
     incs += make_cfg(tmp, u['cfg'])
     incs += [os.path.join(VERIF, 'include'), VERIF, REPO,
@@ -188,6 +188,28 @@ def build_unit(u, tmp, log):
             except loopinject.InjectError as e:
                 return None, 'loop-contract injection: %s' % e
             open(os.path.join(sdir, f), 'w').write(new)
+    # mechanical header/source variants (DESIGN 2.1): verbatim copies plus regex patches that
+    # must fire exactly the stated number of times, else the unit is inconclusive
+    if u.get('copy_src') or u.get('patch_src'):
+        sdir = os.path.join(tmp, 'src')
+        os.makedirs(sdir, exist_ok=True)
+        for f in u.get('copy_src', []):
+            pth = repo_file('src/' + f)
+            if not pth:
+                return None, 'source file src/%s missing' % f
+            if not os.path.exists(os.path.join(sdir, f)):
+                shutil.copy(pth, os.path.join(sdir, f))
+        for ps in u.get('patch_src', []):
+            pth = os.path.join(sdir, ps['file']) if os.path.exists(os.path.join(sdir, ps['file'])) \
+                else repo_file('src/' + ps['file'])
+            if not pth:
+                return None, 'source file src/%s missing' % ps['file']
+            txt = open(pth).read()
+            new_txt, cnt = re.subn(ps['pattern'], ps['replacement'], txt)
+            if cnt != ps.get('count', 1):
+                return None, 'source patch %s on %s fired %d times (expected %d)' % (
+                    ps.get('name', ps['pattern']), ps['file'], cnt, ps.get('count', 1))
+            open(os.path.join(sdir, ps['file']), 'w').write(new_txt)
     flags += include_flags(tmp, u)
     src = os.path.join(VERIF, u['src'])
     gb = os.path.join(tmp, 'u.gb')
@@ -238,7 +260,7 @@ def build_unit(u, tmp, log):
 
 
 def cbmc_cmd(u, gb):
-    cmd = ['cbmc'] + CBMC_CHECKS + ['--json-ui']
+    cmd = ['cbmc'] + [c for c in CBMC_CHECKS if c not in u.get('drop_checks', [])] + ['--json-ui']
     if not u.get('malloc_may_fail'):
         cmd.append('--no-malloc-may-fail')
     if u.get('unwind'):
@@ -329,7 +351,7 @@ def run_unit(u, tier, keep=False):
             return rec
         results, msgs, perr = parse_cbmc(out)
         for m in msgs:
-            mm = re.search(r'Runtime (?:decision procedure|Solver): ([0-9.]+)s', m)
+            mm = re.search(r'Runtime (?:decision procedure|Solver|Postprocess Equation|Convert SSA|Symex)\s*:?\s*([0-9.]+)s', m) if 'decision' in m or 'Solver' in m else None
             if mm:
                 rec['t_solver'] += float(mm.group(1))
         if results is None:
@@ -470,6 +492,9 @@ def native_replay(u, values, tmp):
     counterexample.  Returns (reproduced: bool|None, text)."""
     if u['replay'] == 'none':
         return None, 'unit is marked not natively replayable: ' + str(u.get('replay_why', ''))
+    if u['replace_calls'] and not u.get('native_ok'):
+        return None, ('calls are redirected to stubs with goto-instrument --replace-calls (%s), which the native '
+                      'build cannot reproduce' % ', '.join(u['replace_calls']))
     if u['replace']:
         return None, ('callees are replaced by their contracts in this unit (%s); a contract has no '
                       'native execution, so the counterexample cannot be run' % ', '.join(u['replace']))
